@@ -49,7 +49,7 @@ PROPS = {
         level_note="trusted: the reference regex matcher that replaces package regexp on symbolic input (validated against the real regexp natively, and every counterexample is replayed against the real regexp before it is reported), the SSA executor (sampled paths replayed natively on every run), z3; bounds: 39 catalogue definitions + 100 (quick) / 400 (thorough) generated definitions, inputs <= 3 (quick) / <= 4 (thorough) bytes",
         runs=[dict(pkg="lexer", files=["lexer/zz_verif_stateful.go", "lexer/zz_verif_lexdefs.go", "lexer/zz_verif_lexgen.go"], harness="^VH_C03_",
                    reach={h: ["error", "tokens"] for h in ["VH_C03_Literal", "VH_C03_Overlap", "VH_C03_PushPop", "VH_C03_Return", "VH_C03_IncludeNested", "VH_C03_Backref", "VH_C03_Generated", "VH_C03_ElidedActions"]})],
-        bounds=dict(quick="100 generated definitions (deterministic generator: 3 states, 1-4 rules per state over 31 patterns, Push/Pop/Return/Include, elided rules with and without actions, back-references) and 41 catalogue definitions (literals, overlapping rules, classes, ., multi-byte class, anchors/word boundaries, alternation, empty-matching rule, case folding, Push/Pop, Return, Include first/middle/nested, Pop and Return in Root, optional group in a Push rule, back-references incl. missing group, metacharacter group and a group behind an unset optional group, rule names starting with non-ASCII lower-case / upper-case / caseless letters) x all inputs of <= 3 arbitrary bytes (incl. invalid UTF-8)",
+        bounds=dict(quick="100 generated definitions (deterministic generator: 3 states, 1-4 rules per state over 31 patterns, Push/Pop/Return/Include, elided rules with and without actions, back-references) and 42 catalogue definitions (literals, literal U+FFFD, overlapping rules, classes, ., multi-byte class, anchors/word boundaries, alternation, empty-matching rule, case folding, Push/Pop, Return, Include first/middle/nested, Pop and Return in Root, optional group in a Push rule, back-references incl. missing group, metacharacter group and a group behind an unset optional group, rule names starting with non-ASCII lower-case / upper-case / caseless letters) x all inputs of <= 3 arbitrary bytes (incl. invalid UTF-8)",
                     thorough="400 generated definitions + same catalogue x all inputs of <= 4 arbitrary bytes"),
         outside="definitions outside the catalogue and the generated family; inputs longer than the bound; correctness of package regexp itself; back-reference groups containing bytes >= 0x80",
         assumptions=["package regexp is replaced on symbolic input by the engine's reference matcher (refre.go), leftmost-first semantics over regexp/syntax trees",
@@ -88,7 +88,7 @@ PROPS = {
         level_note="trusted: reference matchers (backtracking and possessive) standing in for package regexp on symbolic input, the SSA executor (sampled paths replayed natively through the emitted code), z3; bounds: 35 catalogue + 24 (quick) / 120 (thorough) generated definitions x inputs <= 3 (quick) / <= 4 (thorough) bytes",
         runs=[dict(pkg="lexer/internal/zzverifgen", pkg_name="zzverifgen", files=["gen/zz_verif_gen.go"], harness="^VH_C05_", generate="c05",
                    reach={"VH_C05_Literal": ["tokens", "error"], "VH_C05_Possessive": ["tolerated", "tokens"], "VH_C05_PushPop": ["tokens"], "VH_C05_G0": ["error"]})],
-        bounds=dict(quick="36 catalogue definitions of the generator's supported class (one per regexp operator the generator handles + multi-state Push/Pop/Return/Include + Pop/Return in Root + elided rules with actions + nullable repetition bodies + rule names starting with non-ASCII letters) and 24 generated definitions (deterministic generator restricted to the supported class) x all inputs of <= 3 arbitrary bytes",
+        bounds=dict(quick="37 catalogue definitions of the generator's supported class (one per regexp operator the generator handles + multi-state Push/Pop/Return/Include + Pop/Return in Root + elided rules with actions + nullable repetition bodies + rule names starting with non-ASCII letters + literal U+FFFD) and 24 generated definitions (deterministic generator restricted to the supported class) x all inputs of <= 3 arbitrary bytes",
                     thorough="same catalogue + 120 generated definitions x all inputs of <= 4 arbitrary bytes"),
         outside="definitions outside the catalogue and the generated family; inputs longer than the bound; back-reference / non-greedy / empty-matching rules (documented as unsupported by the generator)",
         assumptions=["package regexp replaced by reference matchers on symbolic input; the tolerated-difference predicate is 'possessive and backtracking reference matchers disagree on the span of some rule the runtime lexer tried on this input'"],
@@ -260,7 +260,7 @@ import re as _re
 import subprocess as _sp
 
 C05_DEFS = ["Literal", "Overlap", "Classes", "Dot", "Multibyte", "Anchors", "Alternation", "Fold", "PushPop", "String",
-            "Return", "ReturnNested", "ReturnSelf", "IncludeFirst", "IncludeMiddle", "IncludeNested", "IncludeDiamond", "MultiLine", "Astral", "OddNames", "LiteralMB", "Latin1Class", "NonASCIINames", "PopInRoot", "ReturnInRoot", "OptionalGroupPush",
+            "Return", "ReturnNested", "ReturnSelf", "IncludeFirst", "IncludeMiddle", "IncludeNested", "IncludeDiamond", "MultiLine", "Astral", "OddNames", "LiteralMB", "Latin1Class", "NonASCIINames", "ReplacementLit", "PopInRoot", "ReturnInRoot", "OptionalGroupPush",
             "ElidedActions", "NullableStar", "Possessive", "Repeat", "EmptyAlt", "NoWordBoundary", "EndAnchors", "FoldClass", "DotAll", "NonASCIILit", "NegClass"]
 
 C05_GENERATED = {"quick": 24, "thorough": 120}
